@@ -349,6 +349,8 @@ enum V {
     LocalRead(bool),
     /// `Suspend::new(async { rx_k.await; local.await; … })`
     LocalAwait(usize),
+    /// `tachys::html::islands::Island::new("isl", (V…))` / `IslandChildren::new((V…))`: what `#[island]` expands to
+    Island(bool, Vec<V>),
 }
 
 fn parse_views(toks: &[&str], i: &mut usize) -> Option<Vec<V>> {
@@ -407,6 +409,8 @@ fn parse_views(toks: &[&str], i: &mut usize) -> Option<Vec<V>> {
                 let f = a[1..].parse().ok()?;
                 out.push(V::ResRead(kind, f, body(i)?))
             }
+            "I" if arg == "[" => out.push(V::Island(true, body(i)?)),
+            "C" if arg == "[" => out.push(V::Island(false, body(i)?)),
             "L" if arg.is_empty() => out.push(V::LocalRead(true)),
             "M" if arg.is_empty() => out.push(V::LocalRead(false)),
             "W" => out.push(V::LocalAwait(arg.parse().ok()?)),
@@ -539,6 +543,8 @@ fn build(v: &V, env: &Env) -> AnyView {
             let env = env.clone();
             (move || res.get().map(|_| build_all(&kids, &env))).into_any()
         }
+        V::Island(true, kids) => tachys::html::islands::Island::new("isl", build_all(kids, env)).into_any(),
+        V::Island(false, kids) => tachys::html::islands::IslandChildren::new(build_all(kids, env)).into_any(),
         V::LocalRead(sync) => {
             let local = LocalResource::new(|| async { 1u8 });
             if *sync {
@@ -1163,6 +1169,10 @@ struct Gen {
     futs: usize,
     toks: usize,
     budget: usize,
+    /// free mode: a server resource may be created (and awaited) inside the output of a Suspend under a boundary; its
+    /// loader needs an executor turn of its own, so the poll at which the boundary resolves is not the model's, the
+    /// document is
+    lazy_res: bool,
 }
 
 impl Gen {
@@ -1246,6 +1256,9 @@ impl Gen {
                         V::ResSuspend(k, (0..n).map(|_| self.view(depth - 1, max_f, Ctx::Nested, allow_known)).collect())
                     }
                     Ctx::Top => V::ResSuspend(k, (0..n).map(|_| self.view(depth - 1, max_f, Ctx::Top, allow_known)).collect()),
+                    Ctx::Nested if self.lazy_res && self.r.chance(1, 2) => {
+                        V::ResSuspend(k, (0..n).map(|_| self.view(depth - 1, max_f, Ctx::Nested, allow_known)).collect())
+                    }
                     Ctx::Nested if allow_known && self.r.chance(1, 2) => {
                         // F-C07-6: read for the first time while the boundary resolves its children (its output, if
                         // any, is synchronous: what it would wait for depends on when it is evaluated)
@@ -1591,7 +1604,7 @@ fn gen(seed: u64, n: usize, path: &str, tier: &str) -> std::io::Result<()> {
     // ---- free interleavings (stream polls while executor tasks are still runnable): views outside the known classes
     let mut r = Rng::new(seed ^ 0xf4ee);
     for c in 0..n / 4 {
-        let mut g = Gen { r: Rng::new(r.next()), futs: 0, toks: 0, budget: 12 };
+        let mut g = Gen { r: Rng::new(r.next()), futs: 0, toks: 0, budget: 12, lazy_res: true };
         let mode = if g.r.chance(1, 2) { "ooo" } else { "io" };
         let max_f = g.r.range(1, 5);
         let nv = g.r.range(1, 3);
@@ -1648,7 +1661,7 @@ fn gen(seed: u64, n: usize, path: &str, tier: &str) -> std::io::Result<()> {
     // ---- random
     let mut r = Rng::new(seed);
     for c in 0..n {
-        let mut g = Gen { r: Rng::new(r.next()), futs: 0, toks: 0, budget: 14 };
+        let mut g = Gen { r: Rng::new(r.next()), futs: 0, toks: 0, budget: 14, lazy_res: false };
         let ooo = g.r.chance(1, 2);
         let mode = if ooo { "ooo" } else { "io" };
         let kind = g.r.below(10);
